@@ -270,7 +270,13 @@ def gen_addr_data(rng, zone, names, hit_ip, p_err=0.07):
                 zone.append(zA(n, [hit_ip if rng.random() < 0.4 else rng.choice(V4)]))
     r = rng.random()
     if r < 0.5:
-        zone.append(zP(hit_ip, rng.choice([b'mail.example.org', b'host.d0.example.com', b'd1.example.com', b'MAIL.example.org', b'xd0.example.com'])))
+        pn = rng.choice([b'mail.example.org', b'host.d0.example.com', b'd1.example.com', b'MAIL.example.org', b'xd0.example.com', b'mail.xd0.example.com', b'd0.example.com.evil.example'])
+        zone.append(zP(hit_ip, pn))
+        if pn.startswith((b'xd0', b'mail.xd0', b'd0.example.com.evil')) and rng.random() < 0.85:
+            # a validated name that only *ends in* (or starts with) the target without being a subdomain of it
+            zone.append(zQ(pn.decode(), [hit_ip]))
+            if not is6:
+                zone.append(zA(pn.decode(), [hit_ip]))
     elif r < 0.6:
         zone.append(zE('P', hit_ip, rng.choice(ERRNOS)))
 
@@ -509,8 +515,12 @@ def rfc_addr_data(rng, zone, names, hit, p_err=0.06):
     r = rng.random()
     rhost = b''
     if r < 0.55:
-        rhost = rng.choice(names + ['MAIL.' + names[0], 'x' + names[0]]).encode()
+        rhost = rng.choice(names + ['MAIL.' + names[0], 'x' + names[0], 'mail.x' + names[0], names[0] + '.evil.example']).encode()
         zone.append(zP(hit, rhost))
+        if rhost.decode() not in names and not rhost.startswith(b'MAIL.') and rng.random() < 0.85:
+            zone.append(zQ(rhost.decode(), [hit]))
+            if not is6:
+                zone.append(zA(rhost.decode(), [hit]))
     elif r < 0.65:
         zone.append(zE('P', hit, rng.choice(ERRNOS)))
     return rhost
